@@ -181,7 +181,38 @@ def default_run_cell(prop, cell, tier, ctx):
 
     shrink = getattr(prop, "SHRINK", True)
     v = run_hypothesis(prop.PID, cell, strat, body, n, shrink)
+    if v is not None and hasattr(prop, "reduce_candidates"):
+        v = structural_reduce(prop, cell, v, ctx)
     return [v] if v is not None else []
+
+
+def structural_reduce(prop, cell, v, ctx, budget=150):
+    """Greedy structural minimisation for bundle cases (Hypothesis' value shrinker is too
+    expensive on a bundle of a dozen sub-cases): keep trying smaller candidates that fail
+    in the same root-cause bucket.  Bounded by a number of re-executions, not by time."""
+    best = v
+    spent = 0
+    progress = True
+    while progress and spent < budget:
+        progress = False
+        for cand in prop.reduce_candidates(cell, best.case):
+            spent += 1
+            if spent > budget:
+                break
+            sub = Ctx(prop.PID, ctx.tier, cell)
+            sub._case = cand
+            try:
+                prop.check_case(cell, cand, sub)
+            except Violation as w:
+                if w.bucket == best.bucket:
+                    w.case = cand
+                    w.cell = cell
+                    best = w
+                    progress = True
+                    break
+            except Exception:  # a candidate outside the generator's domain: ignore it
+                continue
+    return best
 
 
 def _violation_record(v: Violation):
